@@ -1546,3 +1546,59 @@ def t17(ctx, res):
               detail={"non_mapping_returns_of__serialize_element": non_mapping},
               reason="_serialize_element answers the false schema with the constant False, which serialize_json spreads into a "
                      "mapping: serialize_json(Nothing()) raises TypeError instead of yielding a document")
+
+
+# ---------------------------------------------------------------------- T18
+NAMESPACE_READ_HOOKS = ("__missing__", "__getitem__", "get", "__contains__", "__getattribute__", "__getattr__")
+
+
+@rule("T18", "a class body reads back only what it bound: declared properties are kept out of the class namespace")
+def t18(ctx, res):
+    """Generated class bodies are sequences of `name = Property(<element expression>)`; the element expressions name
+    other generated classes and imported element types.  Property names are arbitrary identifiers (they come from JSON
+    names), so the namespace `__prepare__` returns must not answer a name look-up with a property declared earlier:
+    the expression would then see the property object instead of the module-level class."""
+    prep = ctx.func("ObjectMeta.__prepare__")
+    made = [n for n in walk_own(prep.body) if isinstance(n, ast.Call) and dotted(n.func) == "ObjectClassDict"]
+    if not made:
+        res.unrecognised(prep, "return ObjectClassDict()", reason="the namespace class of model bodies was not recognised")
+        return
+    res.ok(prep, "ObjectClassDict()", reason="model class bodies execute in an ObjectClassDict")
+    c = ctx.cls("ObjectClassDict")
+    hooks = 0
+    for hname in NAMESPACE_READ_HOOKS:
+        m = c.methods.get(hname)
+        if m is None:
+            res.ok("statham/schema/elements/meta.py::ObjectClassDict", f"no {hname}",
+                   reason="name look-ups in a class body fall through to the enclosing module for anything not bound as a plain value")
+            continue
+        hooks += 1
+        reads_props = any(isinstance(n, ast.Attribute) and n.attr == "properties" for n in walk_own(m.body))
+        res.judge(False if reads_props else None, m, f"{hname} answers from self.properties" if reads_props else hname,
+                  reason="a look-up hook on the class namespace answers a name with a declared property: a later statement of a "
+                         "generated body that names a class or import spelled like an earlier property (e.g. a property `Address` "
+                         "followed by `other = Property(Address)`) gets the property object, so the generated module differs "
+                         "from the parsed model or fails to execute")
+    st = c.methods.get("__setitem__")
+    if st is None:
+        raise AnalysisError("ObjectClassDict.__setitem__ vanished")
+    # every path that reaches the plain dict store has excluded property values
+    from .paths import flatten_guard
+    stored_plain = 0
+    for p in enumerate_paths(view(st, ctx.prog).body):
+        txts = [norm(s) for s in p.stmts if isinstance(s, ast.AST)]
+        if p.exit_node is not None:
+            txts.append(norm(p.exit_node))
+        if not any("super().__setitem__" in t or "dict.__setitem__" in t for t in txts):
+            continue
+        stored_plain += 1
+        guards = []
+        for g, pol in p.conds:
+            for a, pl in flatten_guard(g, pol):
+                guards.append((norm(a), pl))
+        excluded = any(("isinstance" in a and "_Property" in a and pl is False) for a, pl in guards)
+        res.judge(True if excluded else False, st, "plain values only reach dict.__setitem__",
+                  detail={"guards": [f"{a} is {pl}" for a, pl in guards[:6]]},
+                  reason="a property value stored in the namespace proper is found again by later statements of the class body")
+    res.floor("namespace_plain_store_paths", stored_plain, 1)
+    res.stat("read_hooks_defined", hooks)
